@@ -105,6 +105,7 @@ FIXED = [
     ("C20", "dc5d38a", "`r=/a/g; r.lastIndex=1.5; r.test('aaa')` raised a Python TypeError, a negative lastIndex indexed from the end, and a non-global regex had a stored fraction/string replaced by an integer: lastIndex went to the matcher unconverted and was written back unconditionally"),
     ("C07", "60b29da", "`try { null.x } catch (e) { e instanceof Error }` was false (also for ReferenceError, RangeError ...): the derived error prototypes had no parent; errors had no toString"),
     ("C07", "a3da203", "`throw new RangeError('out of range')` reached Python as JSError('Error: out of range'): the uncaught object's name was dropped"),
+    ("C15", "cceea8f", "a function with 300 variables was refused with `operand 286 of STORE_LOCAL exceeds 255` under PYTHONHASHSEED=1 and `operand 265 ...` under 2: slot numbers followed set iteration order and were printed in the message"),
 ]
 
 
